@@ -24,6 +24,8 @@ func init() {
 			ruleBufferedOrder(r)
 			ruleSkipBounded(r)
 			ruleSkipReadSiblings(r)
+			ruleDecompressedLength(r)
+			ruleDirectIOAligned(r)
 		})
 	register("C12",
 		"Static rules that a cut or header-damaged file cannot yield invented data: the header CRC is the same polynomial on both sides, covers exactly the four parsed fields, is reset before and taken before the stored checksum is read, and a mismatch or a wrong marker returns the documented error with no success return around the comparison; every payload read is exact-length (io.ReadFull with tested error, or ReadAt with the count compared to the expected length selected by compressor presence); the file header's version and compression ranges equal the constant tables and both Open paths go through that check; no error is dropped in the reader call graph (E-ERRFLOW). Decides these shapes; the prefix property over truncation lengths and CRC strength are not decided.",
